@@ -61,17 +61,47 @@ Variable dec_att : tok -> code -> option attempt.
 Definition objsToIDs (ids : list uid) : option (list uid) :=
   if existsb uid_nil ids then None else Some ids.
 
+(* the entries of schema.go (times are stored as they are: RFC 3339 is exact) *)
+Definition actionsEntry (planID : uid) (pos : nat) (a : sact) (rq : code) (ats : list code) : action_row :=
+  {| ar_id := sa_id a; ar_key := sa_key a; ar_plan := planID; ar_name := sa_name a;
+     ar_descr := sa_descr a; ar_pos := pos; ar_plugin := sa_plugin a;
+     ar_timeout := sa_timeout a; ar_retries := sa_retries a; ar_req := rq; ar_atts := ats;
+     ar_status := s_status (sa_st a); ar_start := s_start (sa_st a); ar_end := s_end (sa_st a) |}.
+
+Definition checksEntry (planID : uid) (c : schk) (ids : list uid) : checks_row :=
+  {| cr_id := sc_id c; cr_key := sc_key c; cr_plan := planID; cr_actions := ids;
+     cr_delay := sc_delay c; cr_status := s_status (sc_st c);
+     cr_start := s_start (sc_st c); cr_end := s_end (sc_st c) |}.
+
+Definition sequencesEntry (planID : uid) (pos : nat) (s : sseq) (ids : list uid) : seq_row :=
+  {| sr_id := sq_id s; sr_key := sq_key s; sr_plan := planID; sr_name := sq_name s;
+     sr_descr := sq_descr s; sr_pos := pos; sr_actions := ids;
+     sr_status := s_status (sq_st s); sr_start := s_start (sq_st s); sr_end := s_end (sq_st s) |}.
+
+Definition blocksEntry (planID : uid) (pos : nat) (b : sblk) (seqs : list uid) : block_row :=
+  {| br_id := sb_id b; br_key := sb_key b; br_plan := planID; br_name := sb_name b;
+     br_descr := sb_descr b; br_pos := pos; br_entr := sb_entr b; br_exit := sb_exit b;
+     br_byp := ochk_id (sb_byp b); br_pre := ochk_id (sb_pre b); br_post := ochk_id (sb_post b);
+     br_cont := ochk_id (sb_cont b); br_def := ochk_id (sb_def b);
+     br_seqs := seqs; br_conc := sb_conc b; br_tol := sb_tol b;
+     br_status := s_status (sb_st b); br_start := s_start (sb_st b); br_end := s_end (sb_st b) |}.
+
+Definition plansEntry (p : spln) (blocks : list uid) : plan_row :=
+  {| pr_id := sp_id p; pr_group := sp_group p; pr_name := sp_name p; pr_descr := sp_descr p;
+     pr_meta := sp_meta p;
+     pr_byp := ochk_id (sp_byp p); pr_pre := ochk_id (sp_pre p); pr_post := ochk_id (sp_post p);
+     pr_cont := ochk_id (sp_cont p); pr_def := ochk_id (sp_def p);
+     pr_blocks := blocks;
+     pr_status := s_status (sp_st p); pr_start := s_start (sp_st p); pr_end := s_end (sp_st p);
+     pr_submit := sp_submit p; pr_reason := sp_reason p |}.
+
 Definition actionToEntry (planID : uid) (pos : nat) (a : sact) : option row :=
   match enc_req (sa_req a) with
   | None => None
   | Some rq =>
     match enc_atts enc_att (sa_atts a) with
     | None => None
-    | Some ats =>
-      Some (RAction {| ar_id := sa_id a; ar_key := sa_key a; ar_plan := planID; ar_name := sa_name a;
-                       ar_descr := sa_descr a; ar_pos := pos; ar_plugin := sa_plugin a;
-                       ar_timeout := sa_timeout a; ar_retries := sa_retries a; ar_req := rq; ar_atts := ats;
-                       ar_status := s_status (sa_st a); ar_start := s_start (sa_st a); ar_end := s_end (sa_st a) |})
+    | Some ats => Some (RAction (actionsEntry planID pos a rq ats))
     end
   end.
 
@@ -91,20 +121,14 @@ Definition checksToItems (planID : uid) (c : option schk) : option (list row) :=
   | None => Some []
   | Some c =>
     match objsToIDs (map sa_id (sc_acts c)), actionsToItems planID 0 (sc_acts c) with
-    | Some ids, Some items =>
-      Some (items ++ [RChecks {| cr_id := sc_id c; cr_key := sc_key c; cr_plan := planID; cr_actions := ids;
-                                 cr_delay := sc_delay c; cr_status := s_status (sc_st c);
-                                 cr_start := s_start (sc_st c); cr_end := s_end (sc_st c) |}])
+    | Some ids, Some items => Some (items ++ [RChecks (checksEntry planID c ids)])
     | _, _ => None
     end
   end.
 
 Definition seqToItems (planID : uid) (pos : nat) (s : sseq) : option (list row) :=
   match objsToIDs (map sa_id (sq_acts s)), actionsToItems planID 0 (sq_acts s) with
-  | Some ids, Some items =>
-    Some (items ++ [RSeq {| sr_id := sq_id s; sr_key := sq_key s; sr_plan := planID; sr_name := sq_name s;
-                            sr_descr := sq_descr s; sr_pos := pos; sr_actions := ids;
-                            sr_status := s_status (sq_st s); sr_start := s_start (sq_st s); sr_end := s_end (sq_st s) |}])
+  | Some ids, Some items => Some (items ++ [RSeq (sequencesEntry planID pos s ids)])
   | _, _ => None
   end.
 
@@ -132,12 +156,7 @@ Definition blockToItem (planID : uid) (pos : nat) (b : sblk) : option (list row)
    (oapp (checksToItems planID (sb_cont b))
    (oapp (checksToItems planID (sb_def b))
    (oapp (seqsToItems planID 0 (sb_seqs b))
-         (Some [RBlock {| br_id := sb_id b; br_key := sb_key b; br_plan := planID; br_name := sb_name b;
-                          br_descr := sb_descr b; br_pos := pos; br_entr := sb_entr b; br_exit := sb_exit b;
-                          br_byp := ochk_id (sb_byp b); br_pre := ochk_id (sb_pre b); br_post := ochk_id (sb_post b);
-                          br_cont := ochk_id (sb_cont b); br_def := ochk_id (sb_def b);
-                          br_seqs := seqs; br_conc := sb_conc b; br_tol := sb_tol b;
-                          br_status := s_status (sb_st b); br_start := s_start (sb_st b); br_end := s_end (sb_st b) |}]))))))
+         (Some [RBlock (blocksEntry planID pos b seqs)]))))))
   end.
 
 Fixpoint blocksToItems (planID : uid) (pos : nat) (l : list sblk) : option (list row) :=
@@ -162,13 +181,7 @@ Definition planToItems (p : spln) : option (list row) :=
    (oapp (checksToItems (sp_id p) (sp_cont p))
    (oapp (checksToItems (sp_id p) (sp_def p))
    (oapp (blocksToItems (sp_id p) 0 (sp_blocks p))
-         (Some [RPlan {| pr_id := sp_id p; pr_group := sp_group p; pr_name := sp_name p; pr_descr := sp_descr p;
-                         pr_meta := sp_meta p;
-                         pr_byp := ochk_id (sp_byp p); pr_pre := ochk_id (sp_pre p); pr_post := ochk_id (sp_post p);
-                         pr_cont := ochk_id (sp_cont p); pr_def := ochk_id (sp_def p);
-                         pr_blocks := blocks;
-                         pr_status := s_status (sp_st p); pr_start := s_start (sp_st p); pr_end := s_end (sp_st p);
-                         pr_submit := sp_submit p; pr_reason := sp_reason p |}]))))))
+         (Some [RPlan (plansEntry p blocks)]))))))
   end.
 
 (* ================= reader_*.go ================= *)
